@@ -1012,6 +1012,9 @@ def run(ctx):
     os.makedirs(gscratch, exist_ok=True)
     cov.update(c05_glue.run(ctx, gscratch, quick))
     cov.update(c05_glue.e2e(ctx, gscratch, quick))
+    t3 = time.time()
+    cov.update(c05_glue.big_blocks(ctx, gscratch, quick))
+    cov["large_block_seconds"] = round(time.time() - t3, 1)
     cov["phase_seconds"] = dict(blocks=round(t1 - t0, 1), end_to_end=round(t2 - t1, 1), container_glue=round(time.time() - t2, 1))
     order, seen_lv = [], {}
     for f in ctx.failures:
@@ -1061,6 +1064,10 @@ def replay(ctx, path):
                     bad += 1
             else:
                 print("replay: files of the failing run are gone; re-run ./check C05 with VERIF_SEED=%s" % r.get("seed"))
+                bad += 1
+        elif c.get("level") == "bigblock":
+            import c05_glue
+            if c05_glue.replay_big(c):
                 bad += 1
         elif c.get("level") == "glue":
             import c05_glue
